@@ -1991,6 +1991,8 @@ class Result:
         result = self.copy()
         if l or p: result = result._group_p(l,p)
         if n     : result = result._global_n(n)
+        #removing evaluations shorter than n can leave a `p` without one of its `l` so we pair once more
+        if (l or p) and n and n != 'min': result = result._group_p(l,p)
         return result
 
     def _remove(self, ids: Sequence[Tuple[int,int,int]], n=0) -> Sequence[int]:
